@@ -43,7 +43,7 @@ def run_sharded(check_name, cases, shard_timeout=600, nproc=None, extra_env=None
             outp = os.path.join(tmp, f'out{si}.jsonl')
             with open(inp, 'w') as f:
                 json.dump(sh, f)
-            cmd = [PY, '-B', '-X', 'dev', '-W', 'ignore', *pyflags, '-m', 'qv.worker',
+            cmd = [PY, '-B', '-W', 'ignore', *pyflags, '-m', 'qv.worker',
                    check_name, inp, outp]
             errf = open(os.path.join(tmp, f'err{si}.txt'), 'w')
             p = subprocess.Popen(cmd, cwd=VERIF, env=env, stdout=subprocess.DEVNULL,
